@@ -7,6 +7,7 @@ import (
 	"os"
 	"os/exec"
 	"path/filepath"
+	"sort"
 	"strings"
 	"sync"
 	"time"
@@ -82,7 +83,7 @@ func decide(dir string, id int, query string, timeoutS int, confirm bool) (solve
 	started := 1
 	var best solveResult
 	have := false
-	timer := time.After(1500 * time.Millisecond)
+	timer := time.After(0)
 	if confirm {
 		timer = time.After(0)
 	}
@@ -125,78 +126,119 @@ func decide(dir string, id int, query string, timeoutS int, confirm bool) (solve
 	return best, all
 }
 
-// Discharge runs all obligations on a worker pool.
+// Discharge decides all obligations. Pass 1: every obligation on z3-new alone
+// with a short timeout, one process per core (most obligations are decided
+// here). Pass 2: the undecided ones with all solvers racing, few at a time so
+// that the machine is not oversubscribed (a loaded machine turns proofs that
+// need ten seconds into timeouts).
 func Discharge(obls []*Obl, timeoutS int, confirm bool, workers int) (disagreements int) {
 	dir, err := os.MkdirTemp("", "govc-q")
 	if err != nil {
 		panic(err)
 	}
 	defer os.RemoveAll(dir)
-	var wg sync.WaitGroup
 	var mu sync.Mutex
-	jobs := make(chan int)
-	for w := 0; w < workers; w++ {
-		wg.Add(1)
-		go func() {
-			defer wg.Done()
-			for i := range jobs {
-				o := obls[i]
-				tmo := timeoutS
-				if o.TimeoutS > 0 {
-					tmo = o.TimeoutS
+	runPool := func(idxs []int, n int, f func(i int)) {
+		var wg sync.WaitGroup
+		jobs := make(chan int)
+		for w := 0; w < n; w++ {
+			wg.Add(1)
+			go func() {
+				defer wg.Done()
+				for i := range jobs {
+					f(i)
 				}
-				best, all := decide(dir, i, o.Query(true), tmo, confirm)
-				o.Result, o.Solver, o.TimeS = best.status, best.solver, best.secs
-				if best.status != "unsat" && best.status != "sat" && strings.Contains(o.Query(false), "(forall ") {
-					// undecided with quantified hypotheses: look for a candidate
-					// counterexample without them (believed only after replay)
-					o2 := *o
-					o2.DropQuantified = true
-					cand, _ := decide(dir, i+1000000, o2.Query(true), 10, false)
-					if cand.status == "sat" {
-						o.Result = "sat-candidate"
-						o.Solver = cand.solver
-						o.Model = "candidate model found with quantified hypotheses dropped (undecided with them: " + best.status + ")\n" + cand.out
-						continue
-					}
+			}()
+		}
+		for _, i := range idxs {
+			jobs <- i
+		}
+		close(jobs)
+		wg.Wait()
+	}
+	all := make([]int, len(obls))
+	for i := range obls {
+		all[i] = i
+	}
+	var pending []int
+	if !confirm {
+		quick := 4
+		runPool(all, workers, func(i int) {
+			o := obls[i]
+			file := filepath.Join(dir, fmt.Sprintf("p%d.smt2", i))
+			os.WriteFile(file, []byte(o.Query(true)), 0644)
+			r := runSolver(solvers[0], file, quick)
+			os.Remove(file)
+			if r.status == "unsat" || r.status == "sat" {
+				o.Result, o.Solver, o.TimeS = r.status, r.solver, r.secs
+				if r.status == "sat" {
+					o.Model = r.out
 				}
-				if best.status == "sat" {
-					o.Model = best.out
-				} else if best.status != "unsat" {
-					var b strings.Builder
-					for _, r := range all {
-						fmt.Fprintf(&b, "[%s: %s %.1fs] %s\n", r.solver, r.status, r.secs, firstLines(r.out, 3))
-					}
-					o.Model = b.String()
-				}
-				if confirm {
-					seen := map[string]bool{}
-					for _, r := range all {
-						if r.status == "sat" || r.status == "unsat" {
-							seen[r.status] = true
-						}
-					}
-					if len(seen) > 1 {
-						mu.Lock()
-						disagreements++
-						mu.Unlock()
-					}
-					n := 0
-					for _, r := range all {
-						if r.status == "unsat" {
-							n++
-						}
-					}
-					o.Tags = map[string]string{"unsat_confirmations": fmt.Sprint(n)}
+				return
+			}
+			mu.Lock()
+			pending = append(pending, i)
+			mu.Unlock()
+		})
+		sort.Ints(pending)
+	} else {
+		pending = all
+	}
+	slow := workers / len(solvers)
+	if slow < 2 {
+		slow = 2
+	}
+	runPool(pending, slow, func(i int) {
+		o := obls[i]
+		tmo := timeoutS
+		if o.TimeoutS > 0 {
+			tmo = o.TimeoutS
+		}
+		best, allr := decide(dir, i, o.Query(true), tmo, confirm)
+		o.Result, o.Solver, o.TimeS = best.status, best.solver, best.secs
+		if best.status != "unsat" && best.status != "sat" && strings.Contains(o.Query(false), "(forall ") {
+			// undecided with quantified hypotheses: look for a candidate
+			// counterexample without them (believed only after replay)
+			o2 := *o
+			o2.DropQuantified = true
+			cand, _ := decide(dir, i+1000000, o2.Query(true), 10, false)
+			if cand.status == "sat" {
+				o.Result = "sat-candidate"
+				o.Solver = cand.solver
+				o.Model = "candidate model found with quantified hypotheses dropped (undecided with them: " + best.status + ")\n" + cand.out
+				return
+			}
+		}
+		if best.status == "sat" {
+			o.Model = best.out
+		} else if best.status != "unsat" {
+			var b strings.Builder
+			for _, r := range allr {
+				fmt.Fprintf(&b, "[%s: %s %.1fs] %s\n", r.solver, r.status, r.secs, firstLines(r.out, 3))
+			}
+			o.Model = b.String()
+		}
+		if confirm {
+			seen := map[string]bool{}
+			for _, r := range allr {
+				if r.status == "sat" || r.status == "unsat" {
+					seen[r.status] = true
 				}
 			}
-		}()
-	}
-	for i := range obls {
-		jobs <- i
-	}
-	close(jobs)
-	wg.Wait()
+			if len(seen) > 1 {
+				mu.Lock()
+				disagreements++
+				mu.Unlock()
+			}
+			n := 0
+			for _, r := range allr {
+				if r.status == "unsat" {
+					n++
+				}
+			}
+			o.Tags = map[string]string{"unsat_confirmations": fmt.Sprint(n)}
+		}
+	})
 	return disagreements
 }
 
